@@ -2,6 +2,9 @@
 C04 — property theorems (only statements users rely on; helper lemmas live in Base/ and Lemmas files).
 -/
 import Otel.Base.Truncate
+import Otel.C04.Model
+import Otel.C04.Spec
+import Otel.C04.Lemmas
 namespace Otel.C04
 open Otel Otel.Utf8 Otel.Trunc
 
@@ -68,5 +71,205 @@ theorem truncate_maximal (limit : Int) (s : Bytes) (h : ¬ (limit < 0 ∨ (s.len
 
 /-- non-vacuity: a string with a valid U+FFFD, an invalid byte and a 2-byte rune is really cut -/
 example : truncate 2 [0xEF, 0xBF, 0xBD, 0xFF, 0xC5, 0xA1, 0x62] = [0xEF, 0xBF, 0xBD, 0xC5, 0xA1] := by decide
+
+/-! ## The span (sdk/trace/span.go, evictedqueue.go) against the reference of Spec.lean -/
+
+/-- **Main refinement.** For ALL six limits (negative = unlimited, 0, positive), every initial name and EVERY finite
+sequence of SetAttributes / AddEvent / AddLink / RecordError / SetStatus / SetName / End calls, the snapshot of the
+recording span (lazy un-deduplicated slice, fast path, addOverCapAttrs, evicting queues, SetStatus guard, recording
+guard) is exactly what the reference predicts: attributes = bounded insertion-ordered map (each key once, last
+value, first position, earliest keys kept, updates applied when full, values cut by `refTrunc`), exact dropped
+attribute count, the most recent events/links up to their limits with per-item caps and exact dropped counts,
+status by the Unset < Error < Ok lattice with a description only for Error, last name, nothing after End. -/
+theorem span_refines_reference (lim : Limits) (name : Bytes) (ops : List Op) :
+    snapshot (run lim (init name) ops) = Spec.refExport lim name ops :=
+  sim_snapshot lim _ _ (sim_run lim ops _ _ (sim_init lim name))
+
+/-- the same statement in the form the driver evaluates on the implementation's snapshot -/
+theorem span_matches_reference (lim : Limits) (name : Bytes) (ops : List Op) :
+    Spec.spanMatchesReference lim name ops (snapshot (run lim (init name) ops)) = true := by
+  simp [Spec.spanMatchesReference, span_refines_reference]
+
+/-- calls made after End change nothing: every operation is the identity on an ended span … -/
+theorem after_end_inert (lim : Limits) (s : St) (op : Op) (h : s.ended = true) : step lim s op = s :=
+  step_ended lim s op h
+
+/-- … hence so is every sequence of operations … -/
+theorem after_end_inert_run (lim : Limits) (s : St) (ops : List Op) (h : s.ended = true) : run lim s ops = s := by
+  induction ops with
+  | nil => rfl
+  | cons op tl ih =>
+    simp only [run, List.foldl_cons] at ih ⊢
+    rw [after_end_inert lim s op h]; exact ih
+
+/-- … and what is exported is fixed by the calls up to the first End, whatever follows it. -/
+theorem export_fixed_at_end (lim : Limits) (name : Bytes) (pre post : List Op) :
+    run lim (init name) (pre ++ Op.end_ :: post) = run lim (init name) (pre ++ [Op.end_]) := by
+  have hend : ∀ s : St, (step lim s Op.end_).ended = true := by
+    intro s
+    by_cases he : s.ended = true <;> simp [step, he]
+  simp only [run, List.foldl_append, List.foldl_cons, List.foldl_nil]
+  exact after_end_inert_run lim _ post (hend _)
+
+/-- SetStatus precedence Unset(0) < Error(1) < Ok(2): on a recording span the new code is the greater of the two … -/
+theorem status_precedence (lim : Limits) (s : St) (code : Nat) (desc : Bytes) (h : s.ended = false) :
+    (step lim s (Op.setStatus code desc)).status.code = max s.status.code code := by
+  simp only [step, h, Bool.false_eq_true, if_false, setStatus]
+  split
+  · omega
+  · simp only; omega
+
+/-- … a lower code never replaces a higher one (Ok is final, Unset never overrides Error) and leaves the description alone … -/
+theorem status_lower_ignored (lim : Limits) (s : St) (code : Nat) (desc : Bytes) (h : code < s.status.code) :
+    (step lim s (Op.setStatus code desc)).status = s.status := by
+  by_cases he : s.ended = true
+  · simp [step, he]
+  · simp [step, he, setStatus, h]
+
+/-- … and in every reachable state a description is present only for Error. -/
+theorem status_description_only_for_error (lim : Limits) (name : Bytes) (ops : List Op)
+    (h : (run lim (init name) ops).status.code ≠ 1) : (run lim (init name) ops).status.desc = [] := by
+  have hs := (sim_run lim ops _ _ (sim_init lim name)).status
+  rw [hs] at h ⊢
+  unfold Spec.refStatus at h ⊢
+  simp only at h ⊢
+  simp [h]
+
+/-- each attribute key appears once in the export -/
+theorem export_keys_unique (lim : Limits) (name : Bytes) (ops : List Op) :
+    (snapshot (run lim (init name) ops)).attrs.Pairwise (fun a b => a.key ≠ b.key) := by
+  simp only [snapshot]
+  split
+  · exact keysNodup_dedupe _
+  · exact List.Pairwise.nil
+
+/-- never more attributes than the limit (none at all for limit 0) -/
+theorem export_attr_bound (lim : Limits) (name : Bytes) (ops : List Op) (h : lim.attrCount ≥ 0) :
+    ((snapshot (run lim (init name) ops)).attrs.length : Int) ≤ lim.attrCount := by
+  have hb := (sim_run lim ops _ _ (sim_init lim name)).bound h
+  simp only [snapshot]
+  split
+  · have := length_dedupe_le (run lim (init name) ops).attrs
+    omega
+  · simpa using h
+
+/-- never more events / links than their limits -/
+theorem export_event_link_bound (lim : Limits) (name : Bytes) (ops : List Op) :
+    (lim.eventCount ≥ 0 → ((snapshot (run lim (init name) ops)).events.length : Int) ≤ lim.eventCount) ∧
+    (lim.linkCount ≥ 0 → ((snapshot (run lim (init name) ops)).links.length : Int) ≤ lim.linkCount) := by
+  have hs := sim_run lim ops _ _ (sim_init lim name)
+  simp only [snapshot, hs.events, hs.links, fifoOf, Spec.lastN]
+  constructor <;> intro h <;> split <;> simp only [List.length_drop] <;> omega
+
+/-- every export satisfies the limit-shaped facts of `Spec.exportWellFormed` (the second predicate the driver evaluates
+on the implementation's snapshot): keys unique, attribute/event/link counts within their limits, per-event and
+per-link attribute counts within theirs, only valid attributes stored, every stored STRING / STRINGSLICE element either
+fits the value-length limit in bytes or is at most that many characters of valid UTF-8, a description only for Error,
+nothing stored under limit 0, nothing evicted without a limit -/
+theorem export_well_formed (lim : Limits) (name : Bytes) (ops : List Op) :
+    Spec.exportWellFormed lim (snapshot (run lim (init name) ops)) = true := by
+  rw [span_refines_reference]
+  exact refView_wellFormed lim _ (refInv_run lim ops _ (refInv_init lim name))
+
+/-- exact dropped counts for events and links: what is exported plus what is reported dropped is exactly what was added
+before End (the reference keeps the complete history) -/
+theorem export_event_link_conservation (lim : Limits) (name : Bytes) (ops : List Op) :
+    (snapshot (run lim (init name) ops)).events.length + (snapshot (run lim (init name) ops)).droppedEvents =
+        (ops.foldl (Spec.refStep lim) (Spec.refInit name)).events.length ∧
+    (snapshot (run lim (init name) ops)).links.length + (snapshot (run lim (init name) ops)).droppedLinks =
+        (ops.foldl (Spec.refStep lim) (Spec.refInit name)).links.length := by
+  rw [span_refines_reference]
+  exact ⟨lastN_conservation _ _, lastN_conservation _ _⟩
+
+/-- the reference map does what the statement says for an existing key: the update is applied even when the map is
+full, the key keeps its position, no key is added … -/
+theorem reference_update_existing_key (cap : Int) (m : List KV) (a : KV) (h : ∃ b ∈ m, b.key = a.key) :
+    ∃ m', Spec.insertBounded cap m a = some m' ∧ m'.map (·.key) = m.map (·.key) ∧ a ∈ m' := by
+  have hany : (m.any fun b => b.key == a.key) = true := by
+    simp only [List.any_eq_true, beq_iff_eq]; exact h
+  refine ⟨m.map (fun b => if b.key == a.key then a else b), by simp only [Spec.insertBounded, hany, if_true], ?_, ?_⟩
+  · simp only [List.map_map]
+    apply List.map_congr_left
+    intro b _
+    by_cases hb : b.key = a.key <;> simp [hb]
+  · obtain ⟨b, hb, hk⟩ := h
+    exact List.mem_map.mpr ⟨b, hb, by simp [hk]⟩
+
+/-- … and for a new key: appended at the end while there is room (so the earliest keys are the ones kept), refused
+(= counted as dropped by `refAttr`) when the map is full -/
+theorem reference_insert_new_key (cap : Int) (m : List KV) (a : KV) (h : ∀ b ∈ m, b.key ≠ a.key) :
+    Spec.insertBounded cap m a = if cap < 0 ∨ (m.length : Int) < cap then some (m ++ [a]) else none := by
+  have hany : (m.any fun b => b.key == a.key) = false := by
+    rw [List.any_eq_false]; intro b hb; simp [h b hb]
+  simp only [Spec.insertBounded, hany, Bool.false_eq_true, if_false]
+
+/-- exact dropped attribute count, one attribute at a time: an offered attribute is either stored (its possibly
+truncated value is in the map afterwards and the count is unchanged) or the map is unchanged and the count grows by
+exactly one — never both, never neither -/
+theorem reference_attr_stored_or_counted (lim : Limits) (st : List KV × Nat) (a : KV) :
+    ((Spec.refAttr lim st a).1 = st.1 ∧ (Spec.refAttr lim st a).2 = st.2 + 1) ∨
+    ((Spec.refAttr lim st a).2 = st.2 ∧ a.valid = true ∧
+      (⟨a.key, Spec.refTruncValue lim.valueLen a.val⟩ : KV) ∈ (Spec.refAttr lim st a).1) := by
+  unfold Spec.refAttr
+  by_cases hv : a.valid = true
+  · simp only [hv, Bool.not_true, Bool.false_eq_true, if_false]
+    by_cases hk : ∃ b ∈ st.1, b.key = a.key
+    · obtain ⟨m', h1, _, h3⟩ := reference_update_existing_key lim.attrCount st.1
+        ⟨a.key, Spec.refTruncValue lim.valueLen a.val⟩ hk
+      rw [h1]
+      exact Or.inr ⟨rfl, trivial, h3⟩
+    · have hk' : ∀ b ∈ st.1, b.key ≠ a.key := by
+        intro b hb hkey; exact hk ⟨b, hb, hkey⟩
+      rw [reference_insert_new_key lim.attrCount st.1 ⟨a.key, Spec.refTruncValue lim.valueLen a.val⟩ hk']
+      by_cases hc : lim.attrCount < 0 ∨ (st.1.length : Int) < lim.attrCount
+      · rw [if_pos hc]
+        exact Or.inr ⟨rfl, trivial, by simp⟩
+      · rw [if_neg hc]
+        exact Or.inl ⟨rfl, rfl⟩
+  · have hv' : a.valid = false := by simpa using hv
+    simp [hv']
+
+/-- non-vacuity: limits that bite (2 attributes, values cut to 1 character, 1 event with 1 attribute), a duplicate key
+straddling the capacity boundary, an update while full, an invalid attribute, an evicted event, a lower status after
+Error, calls after End -/
+example :
+    snapshot (run ⟨2, 1, 1, -1, 1, 0⟩ (init [0x6e])
+      [.setAttrs [⟨[0x61], .int 1⟩],
+       .setAttrs [⟨[0x61], .str [0xC5, 0xA1, 0xFF, 0x62]⟩, ⟨[0x62], .bool true⟩, ⟨[0x63], .int 3⟩, ⟨[], .int 4⟩],
+       .addEvent [0x65] [⟨[0x61], .int 1⟩, ⟨[0x61], .int 2⟩],
+       .recordError (some ([0x54], [0x6d])) [],
+       .addLink ⟨1, 1, 0⟩ [⟨[0x61], .int 1⟩],
+       .setStatus 1 [0x64], .setStatus 0 [0x78],
+       .end_,
+       .setAttrs [⟨[0x61], .int 9⟩], .setName [0x6d], .setStatus 2 []]) =
+    { name := [0x6e], status := ⟨1, [0x64]⟩,
+      attrs := [⟨[0x61], .str [0xC5, 0xA1]⟩, ⟨[0x62], .bool true⟩], droppedAttrs := 2,
+      events := [⟨excName, [⟨excTypeKey, .str [0x54]⟩], 1⟩], droppedEvents := 1,
+      links := [⟨⟨1, 1, 0⟩, [], 1⟩], droppedLinks := 0 } := by decide
+
+/-- non-vacuity of the hypotheses used above: an ended state exists and is reached by End (`after_end_inert`), and a
+call after it really is dropped although the same call on the recording span is not -/
+example : (run ⟨-1, -1, -1, -1, -1, -1⟩ (init []) [.end_]).ended = true ∧
+    run ⟨-1, -1, -1, -1, -1, -1⟩ (init []) [.end_, .setName [0x6d]] = run ⟨-1, -1, -1, -1, -1, -1⟩ (init []) [.end_] ∧
+    (run ⟨-1, -1, -1, -1, -1, -1⟩ (init []) [.setName [0x6d]]).name = [0x6d] := by decide
+
+/-- `status_precedence` / `status_lower_ignored` / `status_description_only_for_error`: a recording state with status
+Error exists; Unset after it is ignored, Error again replaces the description, Ok wins and clears it, Error after Ok is ignored -/
+example :
+    let lim : Limits := ⟨-1, -1, -1, -1, -1, -1⟩
+    let s := run lim (init []) [.setStatus 1 [0x61]]
+    s.ended = false ∧ s.status = ⟨1, [0x61]⟩ ∧
+    (step lim s (.setStatus 0 [0x62])).status = ⟨1, [0x61]⟩ ∧
+    (step lim s (.setStatus 1 [0x62])).status = ⟨1, [0x62]⟩ ∧
+    (step lim s (.setStatus 2 [0x62])).status = ⟨2, []⟩ ∧
+    (step lim (step lim s (.setStatus 2 [0x62])) (.setStatus 1 [0x63])).status = ⟨2, []⟩ := by decide
+
+/-- `reference_update_existing_key` / `reference_insert_new_key`: a full map (capacity 2) takes an update of its first key
+in place and refuses a third key -/
+example :
+    Spec.insertBounded 2 [⟨[0x61], .int 1⟩, ⟨[0x62], .int 2⟩] ⟨[0x61], .int 3⟩ = some [⟨[0x61], .int 3⟩, ⟨[0x62], .int 2⟩] ∧
+    Spec.insertBounded 2 [⟨[0x61], .int 1⟩, ⟨[0x62], .int 2⟩] ⟨[0x63], .int 3⟩ = none ∧
+    Spec.insertBounded 3 [⟨[0x61], .int 1⟩, ⟨[0x62], .int 2⟩] ⟨[0x63], .int 3⟩ =
+      some [⟨[0x61], .int 1⟩, ⟨[0x62], .int 2⟩, ⟨[0x63], .int 3⟩] := by decide
 
 end Otel.C04
